@@ -68,6 +68,8 @@ Kids(b, i) == {j \in 1..Len(b) : b[j].parent = i}
 \* children that take part in the flow of their parent (floats, absolutely positioned and running boxes do not)
 Flow(b, i) == {j \in Kids(b, i) : ~b[j].oof}
 F(cond, name) == IF cond THEN {name} ELSE {}
+RECURSIVE Under(_, _, _)
+Under(b, t, j) == t # 0 /\ (b[t].parent = j \/ Under(b, b[t].parent, j))
 CellSlotsB(b, j) == {<<y, x>> : y \in b[j].ry..(b[j].ry + b[j].rs - 1), x \in b[j].gx..(b[j].gx + b[j].cs - 1)}
 Failures(d, b) ==
   LET I == 1..Len(b) IN
@@ -91,6 +93,8 @@ Failures(d, b) ==
   \cup F(\E i \in I : b[i].type = "TableCaptionBox" /\ (b[i].parent = 0 \/ ~b[b[i].parent].wrapper), "caption-outside-a-table-wrapper")
   \cup F(\E i \in I : b[i].type \in {"TableColumnGroupBox", "TableColumnBox"}, "column-box-in-the-flow-of-the-box-tree")
   \cup F(\E i \in I : b[i].type \in FlexGridT /\ \E j \in Flow(b, i) : b[j].type \notin BlockLevelT, "flex-or-grid-item-not-blockified")
+  \cup F(\E i \in I : b[i].type \in FlexGridT /\ \E j \in Flow(b, i) : b[j].anon /\ ~b[j].wrapper /\ ~(\E t \in I : Under(b, t, j) /\ (~b[t].anon \/ b[t].type \in TableT \/ (b[t].type = "TextBox" /\ b[t].txt # ""))),
+          "anonymous-flex-or-grid-item-without-text")       \* (a white-space-only run in a flex container is not rendered: CSS Flexbox 4)
   \cup F(\E i \in I : b[i].el \in 1..Len(d) /\ Hidden(d, b[i].el), "box-generated-inside-display-none")
   \cup F(\E e \in 1..Len(d) : ~Hidden(d, e) /\ ~InColumn(d, e) /\ ~(\E i \in I : b[i].el = e /\ ~b[i].anon), "displayed-element-without-box")
   \cup F(\E i, j \in I : i < j /\ b[i].type = "TableCellBox" /\ b[j].type = "TableCellBox" /\ b[b[i].parent].parent = b[b[j].parent].parent
